@@ -35,8 +35,23 @@ def run_common(ctx, prop_file, theorem_names):
         n = corpus.sierra_corpus(cdir)
         n_extra = corpus.extra_sierra_corpus(cdir)
         n_neg = corpus.negative_sierra_templates(cdir)
-        ctx.log("extracted %d Sierra programs from /repo, %d extra corpus programs, %d negative templates"
-                % (n, n_extra, n_neg))
+        from props import sierra_runtime
+        cc = sierra_runtime.compile_fresh_corpus(ctx, cdir)
+        res["fresh"] = cc
+        ctx.log("extracted %d Sierra programs from /repo, %d extra corpus programs, %d negative templates, "
+                "%d programs compiled now from examples / bug samples / the instantiation zoo (%d not compiled)"
+                % (n, n_extra, n_neg, cc.get("compiled", 0), len(cc.get("not_compiled", []))))
+        if not cc["ok"]:
+            ctx.violation("the fresh-compile corpus could not be produced: " + cc.get("error", "?"),
+                          {"theorem_or_correspondence": "translator (h14run compile-only)"}, found_input=False)
+        for nc in cc.get("not_compiled", []):
+            if nc.startswith("z_"):
+                # the zoo compiles on the unchanged tree; a zoo program the compiler now refuses or panics on
+                ctx.violation("the compiler no longer compiles an instantiation-zoo program: " + nc[:400],
+                              {"program": nc.split(":")[0], "detail": nc,
+                               "replay_cmd": "python3 lib/zoo.py /tmp/zoo_replay && %s/target/debug/cairo-compile --single-file /tmp/zoo_replay/%s.cairo"
+                                             % (corpus.REPO, nc.split(":")[0])},
+                              found_input=True)
         vlib.clean_dir(cases)
         rc, out = vlib.run([vlib.harness_bin("h15"), cdir, cases, ctx.tier], timeout=3000)
         if rc != 0 or not os.path.exists(os.path.join(cases, "summary.json")):
@@ -94,7 +109,10 @@ def run_common(ctx, prop_file, theorem_names):
         "programs": s.get("corpus_programs", 0),
         "evaluations": s.get("corpus_programs", 0) + s.get("mutants", 0),
         "distinct_nontrivial": s.get("accepted_dumped", 0),
-        "rule": "every Sierra program in /repo (standalone .sierra files + sierra_code sections of tests/e2e_test_data) "
+        "rule": "every Sierra program in /repo (standalone .sierra files + sierra_code sections of tests/e2e_test_data), "
+                "the Sierra the CURRENT compiler emits for /repo/examples, tests/bug_samples and the instantiation zoo "
+                "(lib/zoo.py: containers/boxes/nullables/dicts/enums/locals over 27 types, integer ops and casts, u256/u512, "
+                "bounded ints, builtins, gas, consts - instantiations no golden file pins) "
                 "and seeded single-point mutants of the smaller ones (statement delete/swap/duplicate, arg/result/return "
                 "variable edits, branch retarget incl. self/backward/out of range, branch swap, libfunc swap, entry point "
                 "move, signature swaps, declaration reorder; deduplicated by program text) run through the real "
@@ -103,6 +121,9 @@ def run_common(ctx, prop_file, theorem_names):
         "input_distribution": s,
         "traces_validated_against_impl": s.get("accepted_dumped", 0),
         "model_rejects_of_accepted_programs": len(res["model_rejects"]),
+        "fresh_compiled_programs": (res.get("fresh") or {}).get("compiled", 0),
+        "fresh_sources": (res.get("fresh") or {}).get("sources", {}),
+        "fresh_not_compiled": len((res.get("fresh") or {}).get("not_compiled", [])),
         "samples": samples or ["(harness did not run)"],
     })
     return res
